@@ -16,7 +16,7 @@ import (
 
 func c10Counts(tier string) (cases, per int) {
 	if tier == "thorough" {
-		return 2500, 40
+		return 10000, 40
 	}
 	return 192, 32
 }
